@@ -271,10 +271,10 @@ def catalogue(rng, W, tier):
         signer is reset and one more leaf added -- a refused leaf must leave the signer usable and nothing freed twice"""
         prev0 = ksi.imprint(1, b"c19-prev"); iv = b"c19-iv-0123456789abcdef0123456789"
         r = [norm(s.cmd("BSNEW 1 %s %s" % (prev0.hex(), iv.hex())))]
-        for k, (lvl, md) in enumerate([(0, "-"), (2, "-"), (0, "-")]):      # (masks only: see finding F-C19-13 for what a refused leaf leaves behind)
+        for k, (lvl, md) in enumerate([(0, (b"client-a\0").hex()), (2, "-"), (0, (b"client-b\0").hex() + ",-,7")]):
             r.append(norm(s.cmd("BSADD %s %d %s" % (ksi.imprint(1, b"c19-leaf-%d" % k).hex(), lvl, md))))
         r.append(norm(s.cmd("BSRESET")))
-        r.append(norm(s.cmd("BSADD %s 0 -" % ksi.imprint(1, b"c19-leaf-x").hex())))
+        r.append(norm(s.cmd("BSADD %s 0 %s" % (ksi.imprint(1, b"c19-leaf-x").hex(), (b"client-c\0").hex()))))
         return "|".join(r)
     ops.append(Op("block-signer-leaves", "drv_net", bs_ops, None, "blocksigner/tree_builder"))
     def obj_ops(s):
